@@ -1444,7 +1444,7 @@ class SpaceManager(SharedSpaceOperations):
                 continue
             c = space.cells[old_name]
             if c is not cells:
-                bases = self.get_deriv_bases(c)
+                bases = self.get_deriv_bases(c, defined_only=True)
                 if not bases or bases[0] is not cells:
                     continue    # Comes from another base space
             targets.append((space, c))
@@ -1479,21 +1479,21 @@ class SpaceManager(SharedSpaceOperations):
                 and not isinstance(func, Formula)):
             # Validate the new formula before changing anything
             Formula(func, name=cells.name)
-        define = True
-        for space in self._get_subs(cells.parent, skip_self=False):
+        cells.parent.clear_subs_rootitems()
+        cells.on_set_property(flags, True, func, enable_cache)
+
+        for space in self._get_subs(cells.parent, skip_self=True):
             c = space.cells[cells.name]
-            if c is not cells:
-                # Update only the cells derived from ``cells``
-                if c.is_defined():
-                    continue
-                elif self.get_deriv_bases(
-                        c, defined_only=True)[0] is not cells:
-                    continue
+            # Update only the cells derived from ``cells``
+            if c.is_defined():
+                continue
+            bases = self.get_deriv_bases(c, defined_only=True)
+            if bases[0] is not cells:
+                continue
+            # Re-derive, as ``cells`` may have just become
+            # the nearest definition by being defined
             space.clear_subs_rootitems()
-            space.cells[cells.name].on_set_property(
-                flags, define, func, enable_cache
-            )
-            define = False  # Do not define derived cells
+            c.on_inherit(self, bases)
 
     def set_cells_formula(self, cells, func):
         self.set_cells_property(cells, UserCellsImpl.PROP_FORMULA, func, True)
